@@ -6,4 +6,9 @@ TEXTS = {
         "text": "Tiling and placement are proved in Lean for every spec and every float64/int64 sample (tiling_value/_duration, placement_value/_duration, nonfinite_value, placeKey_in_range): unbounded, by induction on the binary-search loop. The model is tied to the code by regenerated facts (comparison operators, sentinels, clamp guard) and by a differential run of BucketPairs, the cached-bucket path and the plain reporter path against the Lean model, with the theorem's own predicates (Spec.C03.placed/tiles/…) evaluated on what the implementation delivered.",
         "note": "Trusted: Lean kernel; axioms propext/Classical.choice/Quot.sound; factgen; harness; sort.Sort modelled as a sorting permutation (merge sort in the executable model); IEEE comparison modelled on bit patterns. Bucket-count conservation across concurrent passes is C01's theorem; here it is checked by the oracle only.",
     },
+    "C06": {
+        "technique": "Lean 4 theorems over a byte-exact model of Go UTF-8 decoding/encoding and the sanitizeFn loop + differential correspondence and oracle against NewSanitizer",
+        "text": "valid_unchanged, idempotent, rune_count_preserved, output_allowed_or_replacement (no invalid byte passes through), concat_closed and spec_holds (the oracle predicate accepts the model's output) are proved for every option set, every replacement rune and every byte string (unbounded; UTF-8 round-trip lemmas by case analysis and omega). Tie: regenerated comparison operators of sanitizeFn + differential on NewSanitizer(opts).Name/Key/Value with the oracle applied to the implementation's output; scope-level delivery of sanitized strings is exercised by the scope suites of C04.",
+        "note": "Trusted: Lean kernel; axioms propext/Classical.choice/Quot.sound; factgen; harness. clause (vii) 'every string reaching a reporter is a sanitizer output' is checked end to end by the scope suites (oracle), proved only as closure under concatenation (concat_closed).",
+    },
 }
